@@ -83,11 +83,15 @@ package output
 //@ func (*baseCockpit).remove
 //@   requires b != nil && t != nil
 //@   requires #no-duplicate forall i int, j int :: 0 <= i && i < j && j < len(b.tasks) ==> !(b.tasks[i] == t && b.tasks[j] == t)
-//@   modifies baseCockpit.*, spinner.Spinner.*
+//@   modifies baseCockpit.*, spinner.Spinner.*, contents(b.tasks)
+// the deletion `append(b.tasks[:k], b.tasks[k+1:]...)` shifts the tail IN PLACE while the loop keeps ranging
+// over the original slice header: until t is found the list is intact; afterwards the remaining positions of
+// the original array hold elements that used to sit one place further right (or the old last element), none
+// of which is t, so no second deletion happens and every slice expression stays in range
 //@   loop 1 "range b.tasks"
 //@     invariant #same b == b0 && t == t0 && b != nil && t != nil
-//@     invariant #list-intact (forall i int :: 0 <= i && i <= rangeindex ==> old(b.tasks)[i] != t) ==> b.tasks == old(b.tasks)
-//@     invariant #elements forall i int :: 0 <= i && i < len(old(b.tasks)) ==> old(b.tasks)[i] == old(b.tasks[i])
+//@     invariant #list-intact (forall i int :: 0 <= i && i <= rangeindex ==> old(b.tasks[i]) != t) ==> b.tasks == old(b.tasks) && (forall i int :: 0 <= i && i < len(old(b.tasks)) ==> old(b.tasks)[i] == old(b.tasks[i]))
+//@     invariant #after-removal (exists i int :: 0 <= i && i <= rangeindex && old(b.tasks[i]) == t) ==> (forall i int :: rangeindex < i && i < len(old(b.tasks)) ==> old(b.tasks)[i] != t && (i + 1 < len(old(b.tasks)) ==> old(b.tasks[i + 1]) != t))
 //@ func (*baseCockpit).start
 //@   requires b != nil
 //@   modifies spinner.Spinner.*
